@@ -27,7 +27,7 @@ theorem finish_zero (b : WB) (h : b.Zero) : b.finish = .ok [] := by
   show Except.ok (rescueMarks b.text b.line) = _
   rw [h1, h2]; rfl
 
-theorem finish_rel (b b' : WB) (ls : List TLine) (h : OvR b b') (hf : b.finish = .ok ls) : b'.finish = .ok ls := by
+theorem ovFinish_rel (b b' : WB) (ls : List TLine) (h : OvR b b') (hf : b.finish = .ok ls) : b'.finish = .ok ls := by
   obtain ⟨_, _, hz, hb⟩ := h
   rcases hb with rfl | ⟨hw, rfl⟩
   · exact finish_ov b ls hf
@@ -191,7 +191,7 @@ theorem flushWrapping_rel (s s' s1 : SubR) (h : SR s s') (hf : s.flushWrapping =
       cases hfin : (if w.word.noContent = true then { w with word := [] } else w).finish with
       | error e => simp [hfin, andThen] at hf
       | ok ls =>
-        rw [finish_rel _ _ ls hr' hfin]
+        rw [ovFinish_rel _ _ ls hr' hfin]
         simp only [hfin, andThen] at hf ⊢
         exact hf
 
